@@ -16,6 +16,9 @@ pub struct Case {
     pub n: u32,
     pub tol: f64,
     pub complex: bool,
+    /// the f32 instantiation (real field): order, finiteness and coefficients on the f32 rounding scale
+    #[serde(default)]
+    pub single: bool,
 }
 
 const FAMILIES: [&str; 5] = ["legendre", "hermite", "laguerre", "chebyshev", "chebyshev_second"];
@@ -40,9 +43,55 @@ fn build_complex(family: u8, n: u32, tol: f64) -> Result<Polynomial<C64>, String
     }
 }
 
+fn build_single(family: u8, n: u32, tol: f32) -> Result<Polynomial<f32>, String> {
+    match family {
+        0 => sp::legendre::<f32>(n, tol),
+        1 => sp::hermite::<f32>(n, tol),
+        2 => sp::laguerre::<f32>(n, tol),
+        3 => sp::chebyshev::<f32>(n, tol),
+        _ => sp::chebyshev_second::<f32>(n, tol),
+    }
+}
+
 pub fn run_case(case: &Case) -> Outcome {
     let mut o = Obs::new();
     let n = case.n as usize;
+    if case.single {
+        o.label("single-precision");
+        o.label(FAMILIES[case.family as usize % 5]);
+        o.nontrivial = n >= 2;
+        let exact_q = match orthopoly(case.family % 5, n) {
+            Ok(v) => v,
+            Err(_) => return o.discard("i128 overflow in the exact reference"),
+        };
+        let exact: Vec<f64> = exact_q.iter().map(|q| q.to_f64()).collect();
+        let norm: f64 = norm1(&exact);
+        // the zero tolerance stays above the f32 rounding of the largest coefficient and below the leading one
+        let tol32 = (case.tol.max(1e-7) as f32).max((64.0 * f32::EPSILON as f64 * norm) as f32);
+        if !((tol32 as f64) < 0.25 * exact[n].abs()) {
+            return o.discard("no admissible single-precision tolerance");
+        }
+        let p = match build_single(case.family % 5, case.n, tol32) {
+            Ok(p) => p,
+            Err(e) => return o.fail(format!("f32 constructor returned Err({e})")),
+        };
+        if p.order() != n {
+            return o.fail(format!("{}::<f32>({n}) with tol {tol32:e} has order {}, expected exactly {n}", FAMILIES[case.family as usize % 5], p.order()));
+        }
+        let bound = 64.0 * f32::EPSILON as f64 * (n.max(1) as f64) * norm;
+        let mut worst: f64 = 0.0;
+        for k in 0..=n + 2 {
+            let got = p.get_coefficient(k) as f64;
+            let ex = exact.get(k).copied().unwrap_or(0.0);
+            let err = (got - ex).abs();
+            worst = worst.max(err);
+            if !(err <= bound) {
+                return o.fail(format!("{}::<f32>({n}): coefficient of x^{k} is {got:e}, exact {ex:e}; |diff| {err:e} > 64 eps32 n |exact|_1 = {bound:e}", FAMILIES[case.family as usize % 5]));
+            }
+        }
+        o.set("ratio_coef_f32", if bound > 0.0 { worst / bound } else { 0.0 });
+        return o.pass();
+    }
     o.label(FAMILIES[case.family as usize % 5]);
     o.label(if case.complex { "complex" } else { "real" });
     o.nontrivial = n >= 2;
@@ -127,7 +176,7 @@ pub fn run_case(case: &Case) -> Outcome {
 }
 
 fn strategy(_t: Tier) -> BoxedStrategy<Case> {
-    (0u8..5, 0u32..=20, gen::logu(-14.0, -6.0), any::<bool>()).prop_map(|(family, n, tol, complex)| Case { family, n, tol, complex }).boxed()
+    (0u8..5, 0u32..=20, gen::logu(-14.0, -6.0), any::<bool>(), prop_oneof![5 => Just(false), 1 => Just(true)]).prop_map(|(family, n, tol, complex, single)| Case { family, n: if single { n.min(14) } else { n }, tol, complex: complex && !single, single }).boxed()
 }
 
 pub fn run(opts: &Opts) -> i32 {
@@ -136,15 +185,22 @@ pub fn run(opts: &Opts) -> i32 {
         for n in 0..=20u32 {
             for tol in [1e-14, 1e-12, 1e-10, 1e-8, 1e-6] {
                 for complex in [false, true] {
-                    spec.enumerated.push(Case { family, n, tol, complex });
+                    spec.enumerated.push(Case { family, n, tol, complex, single: false });
                 }
+            }
+        }
+    }
+    for family in 0..5u8 {
+        for n in 0..=14u32 {
+            for tol in [1e-7, 1e-5] {
+                spec.enumerated.push(Case { family, n, tol, complex: false, single: true });
             }
         }
     }
     spec.cases = opts.tier.pick(4_000, 200_000);
     spec.exhaustive = Some("five families x n=0..20 x tolerances {1e-14,1e-12,1e-10,1e-8,1e-6} x {f64, Complex<f64>}".into());
-    spec.rule = "enumerated: family x n in 0..=20 x five zero tolerances x real/complex; generated: same with log-uniform tolerance in [1e-14,1e-6]. Oracle: exact rational coefficients from the three-term recurrences in checked i128 arithmetic; order()==n; |c_k - exact_k| <= 64 eps n |exact|_1; normalisations, trigonometric identities, parity, leading coefficient to 1e-10 relative. Non-trivial = n >= 2. Distinct = distinct case JSON.".into();
+    spec.rule = "enumerated: family x n in 0..=20 x five zero tolerances x real/complex; generated: same with log-uniform tolerance in [1e-14,1e-6]. Oracle: exact rational coefficients from the three-term recurrences in checked i128 arithmetic; order()==n; |c_k - exact_k| <= 64 eps n |exact|_1; normalisations, trigonometric identities, parity, leading coefficient to 1e-10 relative; the f32 instantiation for n <= 14 (order, finite coefficients within 64 eps32 n |exact|_1; zero tolerance between the f32 rounding of the largest coefficient and a quarter of the leading one). Non-trivial = n >= 2. Distinct = distinct case JSON.".into();
     spec.assumptions = vec!["exact reference fits i128 for n <= 20 (checked arithmetic; overflow would be a discard)".into()];
-    spec.max_discard_frac = 0.0;
+    spec.max_discard_frac = 0.05; // single precision: Laguerre/Legendre rows whose leading coefficient is below the f32 rounding of the largest one
     run_spec(spec, opts)
 }
